@@ -52,6 +52,9 @@ class RayGenerator:
             z1 = np.full_like(Px, EPL)
 
         mag = np.sqrt((x1 - x0)**2 + (y1 - y0)**2 + (z1 - z0)**2)
+        # rays travel towards +z: when the entrance pupil lies in front of the
+        # launch point the ray line still passes through the pupil point
+        mag = np.where(z1 - z0 < 0, -mag, mag)
         L = (x1 - x0) / mag
         M = (y1 - y0) / mag
         N = (z1 - z0) / mag
